@@ -215,9 +215,7 @@ theorem set_user_login (env : Env H) (hs : env.Sound) (fs : List Field) (st : St
 theorem update_user_record_effect (env : Env H) (fs : List Field) (st : State H) (hi : Inv st)
     (hn1 : fs.length ≠ 1) (lg nm : Bytes) (hlg : getField 105 fs = some lg) (hnm : getField 102 fs = some nm)
     (acc : Account H)
-    (hacc : st.mem.get (if (match getField 101 fs with | some d => obfuscate d | none => []) ≠ []
-                          then (match getField 101 fs with | some d => obfuscate d | none => [])
-                          else obfuscate lg) = some acc)
+    (hacc : st.mem.get (accountToUpdate fs (obfuscate lg)) = some acc)
     (hleg : LegalLogin (obfuscate lg)) (hlen : (obfuscate lg ++ yamlExt).length ≤ env.nameMax) :
     let n := obfuscate lg
     let a' : Account H := { login := n, name := nm,
@@ -247,6 +245,7 @@ theorem update_user_record_effect (env : Env H) (fs : List Field) (st : State H)
     unfold updateRec
     rw [if_neg hn1]
     simp only [hlg, hnm, hacc]
+    rfl
   by_cases e : acc.login = n
   · have hu := update_same env a0 st haleg (by show (acc.login ++ yamlExt).length ≤ _; rw [e]; exact hlen)
     have ea : a0 = a' := by simp only [a0, a', e]
@@ -291,6 +290,7 @@ theorem deleted_login_is_absent (env : Env H) (fs : List Field) (st : State H)
     show (handleDeleteUser env fs st).1 = _
     unfold handleDeleteUser delete
     rw [fileC_legal hl]
+    dsimp only
     cases hdd : st.disk.get (obfuscate (fieldData 105 fs) ++ yamlExt) with
     | none => rw [hdd] at hd; cases hd
     | some _ => rfl
@@ -309,8 +309,8 @@ theorem update_user_delete_record (env : Env H) (fs : List Field) (st : State H)
   have hr : r = (⟨st.mem.del (obfuscate d), st.disk.del (obfuscate d ++ yamlExt)⟩, none) := by
     show updateRec env fs st = _
     unfold updateRec delete
-    rw [if_pos h1, fileC_legal hl]
-    simp only [hd]
+    rw [if_pos h1]
+    simp only [hd, fileC_legal hl]
     cases hdd : st.disk.get (obfuscate d ++ yamlExt) with
     | none => rw [hdd] at hf; cases hf
     | some _ => rfl
@@ -353,7 +353,9 @@ theorem new_user_effect (env : Env H) (fs : List Field) (st : State H) (hi : Inv
 def envT : Env Bytes := ⟨id, fun h q => h == q, 255⟩
 
 theorem envT_sound : envT.Sound := by
-  intro p q; simp [envT, eq_comm]
+  intro p q
+  show ((p == q) = true) ↔ p = q
+  exact beq_iff_eq
 
 def admin : Account Bytes := ⟨[97], [65], [115], [255, 255, 255, 255, 255, 255, 255, 255]⟩   -- login "a", password "s"
 
